@@ -9,7 +9,8 @@ META = dict(
     id="C20",
     design_ref="DESIGN.md section 4, C20",
     technique="Coq proof (structural induction over payload trees, for every sys.modules environment) + differential "
-              "correspondence with exception_to_python / TaskiqResult.model_validate(_json) on trap environments",
+              "correspondence with exception_to_python / TaskiqResult.model_validate(_json) on trap environments, in driver "
+              "processes and in fresh interpreters that imported one list of taskiq modules each",
     level_text="Theorems C20_only_exceptions, C20_outcome (+ _plain), C20_illtyped(_iff), C20_unresolved, C20_nested (+ _refused, "
                "_gate), C20_instantiated_reachable, C20_parametric_gate_is_model hold for the Gallina transcription `load` of exception_to_python (pydantic "
                "tree validation, sys.modules lookup, split('.')/getattr walk, isinstance/issubclass gate, the general Python call "
@@ -40,15 +41,25 @@ META = dict(
                "own modules do on attribute lookup is taskiq's behaviour; what third-party hooks (pydantic, anyio) import when a stored "
                "name walks into them is a violation of 'never imports a module that is not already loaded' on the unchanged "
                "tree and is reported as KNOWN-FINDING `foreign_lazy_package` (D13), judged by its own replay on every run. "
+               "'Already loaded' is a fact about the loading process: besides the driver processes (everything a test needs fully "
+               "imported) the loads are made in fresh interpreters that have imported one list of taskiq modules each (every "
+               "module file of taskiq is viewed; one process per distinct resulting sys.modules state that shows a module nobody "
+               "has shown yet, plus a few others), with stored errors naming every key of that process' sys.modules. A module whose "
+               "code is run during the load counts as imported even if its key was in sys.modules before (a module object "
+               "registered without having been executed, importlib.util.LazyLoader, is not a loaded module); module bodies are "
+               "seen through an audit hook ('exec' of a module-level code object that belongs to a file), code compiled from "
+               "strings is nobody's module. Loads made while a process warms up (payloads naming builtins / os only) are not judged. "
                "Trusted: Coq kernel + vm_compute; the trap objects, the "
                "Exception.__subclasses__() / sys.modules snapshots and the canonicaliser of the driver.",
     rule="case = (environment variant, entry point, payload tree with realisation choices); generated per seed; non-trivial iff "
          "some node's name resolves to a non-exception object, or walks through a loaded package towards a sub-module that is not "
-         "loaded, or the tree has nesting depth >= 1; distinct by canonical JSON",
+         "loaded, or the tree has nesting depth >= 1, or the load is made in a fresh interpreter that imported a given list of "
+         "taskiq modules (the case then names that list); distinct by canonical JSON",
     trusted_base=["model: coq/theories/LoadGate.v (hand-written transcription of exception_to_python and its callers)",
                   "reference behaviour of the constructors of taskiq's own exception classes: the plain call cls(*args) in the "
                   "driver process, outside any load (loadgate_driver.probe_ctor)",
-                  "trap objects, observation window and canonicaliser: harness/drivers/loadgate_driver.py",
+                  "trap objects, observation window (sys.modules difference, audit hook for executed module bodies), the boot "
+                  "script of the fresh interpreters and canonicaliser: harness/drivers/loadgate_driver.py",
                   "pydantic validation of Optional[Union[BaseException, ExceptionRepr]] (exercised, summarised as well-typed / "
                   "ill-typed per field), CPython type() name check, getattr"],
     assumptions=["attribute lookup side effects (module __getattr__ of modules that are not taskiq's own, properties) are outside "
@@ -694,8 +705,9 @@ def oracle(case, obs):
         elif e[0] == "inst" and specs[e[1]]["kind"] != "exc":
             out.append(("load instantiated a class that is not a BaseException subclass", dict(clause="instantiate")))
     # "never imports a module that is not already loaded"
-    if obs["newmods"]:
-        out.append(("load imported a module that was not loaded", dict(clause="import", modules=obs["newmods"][:3])))
+    imported = imported_by(obs)
+    if imported:
+        out.append(("load imported a module that was not loaded", dict(clause="import", modules=imported[:3])))
     # "either yields an exception instance or fails with a security/validation error"
     if kind == "ok":
         if (res[1] is None) != (raw["k"] == "none"):
@@ -738,6 +750,12 @@ def oracle(case, obs):
     return out
 
 
+def imported_by(obs):
+    """new keys of sys.modules, and modules whose code was run during the load although their key was there already (a
+    module object registered without having been executed is not a loaded module)"""
+    return [m for m in obs.get("executed", []) if m not in obs["newmods"]] + obs["newmods"]
+
+
 def rich_nodes(raw):
     """nodes one of whose arguments is a value of the case's own table (it names a trap object)"""
     out = []
@@ -749,6 +767,8 @@ def rich_nodes(raw):
 
 
 def nontrivial(case):
+    if case.get("fresh"):
+        return True
     if depth_of(case["raw"]) >= 2 or rich_nodes(case["raw"]) or lazy_nodes(case["raw"]):
         return True
     for _, n in nodes_of(case["raw"]):
@@ -854,7 +874,7 @@ def ceff(obs):
             out.append("(OCall %d)" % e[1])
         else:
             out.append("(OSynth %s %s)" % (cname(e[1]), csmod(e[2])))
-    out += ["(OImport %s)" % cname(m) for m in obs["newmods"]]
+    out += ["(OImport %s)" % cname(m) for m in imported_by(obs)]
     return "[" + "; ".join(out) + "]" if out else "(@nil oeffect)"
 
 
@@ -876,12 +896,16 @@ def driver_case(c):
         d["argtab"] = c["argtab"]
     if c.get("lazy"):
         d["lazy"] = [list(x) for x in c["lazy"]]
+    if c.get("fresh"):
+        d["fresh"] = c["fresh"]
     return d
 
 
-def explore(ctx, rep, cases, label):
-    """cases carry their environment inline; environments are emitted once per Coq file"""
-    obs = C.run_driver(ctx, "loadgate_driver", [driver_case(c) for c in cases])
+def explore(ctx, rep, cases, label, obs=None, shard=300):
+    """cases carry their environment inline; environments are emitted once per Coq file (obs: observations that were
+    made already - the fresh-process batches)"""
+    if obs is None:
+        obs = C.run_driver(ctx, "loadgate_driver", [driver_case(c) for c in cases])
     envs, lits, keep = {}, [], []
     for c, o in zip(cases, obs):
         rep.case(driver_case(c), nontrivial(c))
@@ -894,7 +918,8 @@ def explore(ctx, rep, cases, label):
         coverage(rep, c, o)
         fails = oracle(c, o)
         for what, sig in fails[:1]:
-            rep.fail(what, driver_case(c), observed=dict(res=o["res"], eff=o["eff"], newmods=o["newmods"]),
+            rep.fail(what, driver_case(c), observed=dict(res=o["res"], eff=o["eff"], newmods=o["newmods"],
+                                                         executed=o.get("executed", []), asked=o.get("asked", [])),
                      expected="exception instance | SecurityError | ValidationError; only exception classes instantiated; "
                               "no call; no import; unresolved -> synthetic class; nested = top level", sig=sig)
         key = json.dumps(c["env"], sort_keys=True)
@@ -905,7 +930,7 @@ def explore(ctx, rep, cases, label):
     shared = {}
     defs = "".join("Definition env_%d : env :=\n  %s.\n" % (i, cenv(e, shared)) for i, e in envs.values())
     header = COQ_HEADER + "".join("Definition %s : env :=\n  %s.\n" % nv for nv in shared.values()) + defs
-    bad, sfails, _ = C.coq_eval(ctx, label, header, lits, COQ_BODY, shard=300)
+    bad, sfails, _ = C.coq_eval(ctx, label, header, lits, COQ_BODY, shard=shard)
     rep.corr(label, len(lits), bad, sfails, lambda i: driver_case(keep[i]))
     rep.traces += len(lits) - len(bad)
     return bad or sfails
@@ -1005,6 +1030,181 @@ def grid_cases(env):
     return out
 
 
+# --------------------------------------------------------------------------- fresh processes
+# "a module that is not already loaded" is a fact about the PROCESS that loads the stored error.  A driver process has
+# everything fully imported; an application that embeds taskiq.api, a worker, a scheduler have each imported their own part
+# of taskiq and its dependencies - and what sits in their sys.modules need not be an executed module (importlib.util.
+# LazyLoader registers the module object at once and runs its code on the first attribute access, i.e. inside the getattr
+# walk of the load).  So: fresh interpreters that import one list of taskiq modules each, and stored errors that name every
+# key of THEIR sys.modules - top level and as cause / context, with a made-up type name that Python's getattr cannot
+# resolve - plus names that walk THROUGH a bound attribute of one of taskiq's own modules, plus ordinary trap cases.
+FRESH_BASE = 7000
+BLIND_TYPES = ["LgNoSuchError", "LgNoSuchError", "lg_absent.Err", "LgNo.Such.Err"]
+PROBE_NAME = "LgNoSuchError"
+
+
+def builtins_min():
+    m = real_modules()[0]
+    keep = ("ValueError", "KeyError", "Exception")
+    return dict(name="builtins", real_module=True, obj=dict(m["obj"], attrs=[a for a in m["obj"]["attrs"] if a[0] in keep]))
+
+
+def leaf(r, md, ty):
+    sup = r.random() < .5
+    return dict(k="dict", ty=dict(ok=ty), md=dict(ok=md), args=dict(ok=[r.randint(0, 40) for _ in range(r.choice([0, 1, 1, 2]))]),
+                sup=dict(ok=sup, **{"as": sup}), cause=dict(k="none", omit=r.random() < .6), ctx=dict(k="none", omit=r.random() < .6))
+
+
+def link(r, nodes, max_depth=4):
+    """one tree out of the nodes: node 0 on top, every other one cause or context of an earlier one"""
+    depth = [0]
+    for i in range(1, len(nodes)):
+        free = [(j, k) for j in range(i) if depth[j] < max_depth for k in ("cause", "ctx") if nodes[j][k]["k"] == "none"]
+        j, k = r.choice(free)
+        nodes[j][k] = nodes[i]
+        depth.append(depth[j] + 1)
+    return nodes[0]
+
+
+def snapshot_spec(d, i, attrs=()):
+    sp = dict(id=FRESH_BASE + i, kind=d["kind"], auto=True, attrs=[list(a) for a in attrs])
+    if d["kind"] == "inst":
+        sp["callable"] = bool(d.get("callable"))
+    return dict(name=d["name"], real_module=True, obj=sp)
+
+
+def blind_case(r, group, fresh):
+    """one payload tree naming every module of the group (each in its own node), sometimes below a builtin error"""
+    nodes = [leaf(r, d["name"], r.choice(BLIND_TYPES)) for d in group]
+    if r.random() < .3:
+        nodes.insert(0, leaf(r, "builtins", r.choice(["ValueError", "KeyError", "Exception"])))
+    raw = link(r, nodes)
+    env = dict(mods=[snapshot_spec(d, i) for i, d in enumerate(group) if d["name"] != "builtins"] + [builtins_min()])
+    return dict(env=env, entry=r.choice(ENTRIES), raw=raw, fresh=fresh, fresh_kind="blind",
+                fresh_named=[[d["name"], d["owner"], d["type"]] for d in group])
+
+
+def walk_case(r, w, fresh):
+    """`module:attr.<made-up>` (unresolvable: checked by the view) or, for what is no exception class, `module:attr` itself"""
+    child = dict(id=FRESH_BASE + 500, kind=w["kind"], auto=True, attrs=[])
+    if w["kind"] == "inst":
+        child["callable"] = bool(w.get("callable"))
+    if w["kind"] == "exc":
+        child["ctor"] = "any"
+    alone = w["kind"] != "exc" and r.random() < .3
+    node = leaf(r, w["module"], w["attr"] if alone else w["attr"] + "." + r.choice([PROBE_NAME, PROBE_NAME + ".Inner"]))
+    nodes = [node]
+    if w["kind"] != "exc" and not alone and r.random() < .4:
+        nodes.insert(0, leaf(r, "builtins", "ValueError"))
+    env = dict(mods=[snapshot_spec(dict(name=w["module"], kind="module"), 0, [[w["attr"], child]]), builtins_min()])
+    return dict(env=env, entry=r.choice(ENTRIES), raw=link(r, nodes), fresh=fresh, fresh_kind="walk",
+                fresh_walk=[w["kind"], w.get("type", ""), "alone" if alone else "through"])
+
+
+def cover(views):
+    """import lists grouped by what the process then has in sys.modules (names and types of the module objects), in greedy
+    set-cover order: first the class that shows most (name, type) pairs nobody has shown yet"""
+    classes = {}
+    for fr, v in views:
+        sig = tuple(sorted((d["name"], d["type"]) for d in v["snapshot"]))
+        classes.setdefault(sig, []).append((fr, v))
+    left, seen, order = dict(classes), set(), []
+    while left:
+        sig = max(left, key=lambda s_: (len(set(s_) - seen), -len(s_), [m[0]["imports"] for m in left[s_]]))
+        order.append((left.pop(sig), set(sig) - seen))
+        seen |= set(sig)
+    return order
+
+
+def fresh_family(ctx, rep, envs):
+    r = ctx.sub_rng("fresh")
+    ent = C.run_driver(ctx, "loadgate_driver", [dict(special="fresh_entries")], nproc=1)[0]
+    if "_crash" in ent:
+        rep.fail("driver crashed while listing taskiq's module files", dict(special="fresh_entries"),
+                 observed=ent["_crash"][-600:], sig=dict(clause="crash"))
+        return False
+    names = ent["modules"]
+    # import lists: every module file of taskiq on its own; a few in pairs / triples in some order; a few after the process
+    # has already run a task through an InMemoryBroker
+    plans = [dict(imports=[n]) for n in names]
+    for _ in range(ctx.n(3, 16)):
+        plans.append(dict(imports=r.sample(names, r.choice([2, 2, 3]))))
+    for _ in range(ctx.n(3, 12)):
+        plans.append(dict(imports=r.sample(names, r.choice([1, 1, 2])), prelude="inmemory"))
+    n_walks = ctx.n(2, 12)
+    reqs = [dict(pl, seed=r.randrange(10**6), walks=n_walks) for pl in plans]
+    chunk = -(-len(reqs) // min(C.NPROC, 8))
+    parts = [reqs[i:i + chunk] for i in range(0, len(reqs), chunk)]
+    got = C.run_driver(ctx, "loadgate_driver", [dict(fresh_views=p_) for p_ in parts])
+    views, errors, warm = [], {}, set()
+    for part, g in zip(parts, got):
+        for q, v in zip(part, g.get("views") or [dict(_crash=g.get("_crash", "no views"))] * len(part)):
+            fr = {k: q[k] for k in ("imports", "prelude") if k in q}
+            if "_crash" in v:
+                rep.fail("a fresh interpreter that imports taskiq modules and lists sys.modules crashed", dict(fresh_views=[q]),
+                         observed=v["_crash"][-600:], sig=dict(clause="crash"))
+                continue
+            for n, e in v["errors"]:
+                errors[n] = e
+            warm |= set(v["warm_imported"])
+            views.append((fr, v))
+    order = cover(views)
+    frac, cap = (.1, 4) if ctx.quick else (1.0, 400)
+    n_traps = ctx.n(4, 30)
+    trap_envs = [(e, p_, t, []) for e, p_, t, _lz in (r.sample(envs, 2) if ctx.quick else envs)]
+    batches, info = [], []
+    # quick tier: the states that show something no earlier one has shown, and a few of the others
+    chosen = [x for x in order if x[1]]
+    rest = [x for x in order if not x[1]]
+    chosen += r.sample(rest, min(len(rest), cap))
+    for members, news in chosen:
+        fr, v = r.choice(members)
+        byname = {d["name"]: d for d in v["snapshot"] if d["kind"] in ("module", "class", "inst")}
+        new = sorted(n for n, _t in news if n in byname)
+        old = sorted(set(byname) - set(new))
+        odd = [n for n in old if byname[n]["type"] != "module"]      # a module object of another type: named wherever it is
+        old = [n for n in old if byname[n]["type"] == "module"]
+        named = [byname[n] for n in new + odd + r.sample(old, min(len(old), int(len(old) * frac) + 1))]
+        r.shuffle(named)
+        cases, i = [], 0
+        while i < len(named):
+            k = r.choice([3, 5, 7]) if named[i]["owner"] == "stdlib" else r.choice([1, 1, 2, 3])
+            cases.append(blind_case(r, named[i:i + k], fr))
+            i += k
+        cases += [walk_case(r, w, fr) for w in v["walks"]]
+        for _ in range(n_traps):
+            cases.append(dict(gen_case(r, trap_envs), fresh=fr, fresh_kind="trap"))
+        batches.append((fr, cases))
+        info.append(dict(fr, same_state_after=[m[0]["imports"] for m in members if m[0] is not fr][:8] or None,
+                         sys_modules=len(v["snapshot"]), named=len(named), first_shown_here=len(new), cases=len(cases),
+                         module_objects_of_another_type=sorted({d["type"] for d in v["snapshot"] if d["type"] != "module"})))
+    got = C.run_driver(ctx, "loadgate_driver", [dict(fresh=fr, cases=[driver_case(dict(c, fresh=None)) for c in cases])
+                                                for fr, cases in batches], nproc=min(C.NPROC, max(1, len(batches))))
+    flat, obs = [], []
+    for (fr, cases), b in zip(batches, got):
+        rep.count("fresh:process")
+        rep.count("fresh:prelude=" + str(fr.get("prelude")))
+        rep.count("fresh:imports=%d" % len(fr["imports"]))
+        outs = b["batch"] if "batch" in b else [dict(_crash=b.get("_crash", "no batch"))] * len(cases)
+        for c, o in zip(cases, outs):
+            flat.append(c)
+            obs.append(o)
+            rep.count("fresh:case=" + c["fresh_kind"])
+            for _n, owner, ty in c.get("fresh_named", []):
+                rep.count("fresh:named-module:owner=" + owner)
+                if ty != "module":
+                    rep.count("fresh:named-module:object-type=" + ty)
+            if c["fresh_kind"] == "blind":
+                rep.count("fresh:blind:modules-in-one-payload=%d" % len(c["fresh_named"]))
+            if c["fresh_kind"] == "walk":
+                rep.count("fresh:walk:%s:%s" % (c["fresh_walk"][0], c["fresh_walk"][2]))
+    rep.extra["fresh_processes"] = dict(
+        taskiq_module_files=len(names), import_lists_viewed=len(views), distinct_states=len(order), processes=info,
+        modules_seen_in_some_process=len({d["name"] for _f, v in views for d in v["snapshot"]}),
+        imports_that_failed=errors, imported_by_the_warm_up_loads=sorted(warm))
+    return explore(ctx, rep, flat, "fresh", obs, shard=160)
+
+
 SPECIALS = [dict(special="lazy_getattr"), dict(special="forged_class"), dict(special="pickle_path"),
             dict(special="foreign_lazy_package")]
 
@@ -1068,6 +1268,7 @@ def run(ctx):
     r = ctx.sub_rng("gen")
     cases = [gen_case(r, envs) for _ in range(ctx.n(2400, 30000))]
     broken = explore(ctx, rep, cases, "main")
+    broken = fresh_family(ctx, rep, envs) or broken
     if not ctx.quick:
         grid = grid_cases(envs[0][0])
         broken = explore(ctx, rep, grid, "grid") or broken
@@ -1104,7 +1305,15 @@ def replay(ctx, path):
         bad = bool(o.get("observed")) or "_crash" in o
         print("VIOLATED (known finding %s)" % c["special"] if bad else "holds")
         return 1 if bad else 0
+    if c.get("fresh_views"):
+        o = C.run_driver(ctx, "loadgate_driver", [c], nproc=1)[0]
+        bad = "_crash" in o or any("_crash" in v for v in o["views"])
+        print("implementation:", json.dumps(o)[:3000])
+        print("VIOLATED (a fresh interpreter importing %r crashed)" % [q["imports"] for q in c["fresh_views"]] if bad else "holds")
+        return 1 if bad else 0
     o = C.run_driver(ctx, "loadgate_driver", [c], nproc=1)[0]
+    if c.get("fresh"):
+        print("loaded in a fresh interpreter that imported %r (prelude: %s)" % (c["fresh"]["imports"], c["fresh"].get("prelude")))
     print("entry:", c["entry"])
     print("payload:", json.dumps(c["raw"])[:1500])
     print("implementation:", json.dumps(o)[:1500])
